@@ -15,6 +15,10 @@ RULE = ("(a) virtual time: schedule_periodic on VirtualTimeScheduler / TestSched
         "CatchScheduler(EventLoopScheduler) under the deterministic thread scheduler, a second thread disposes after a virtual sleep, the action "
         "may take virtual time and may raise at its k-th invocation: state threading, invocation k exactly at t0 + k*period while the action is shorter "
         "than the period, no invocation later than one period after dispose() returned, none after a raise (CatchScheduler: "
+        "handler called once, True swallows); stall runs additionally deschedule a library thread for 0.3-1.5 periods of virtual time at a "
+        "uniformly drawn line of the scheduler files: an invocation that starts after dispose() returned is a violation unless the invoking "
+        "thread had already evaluated the implementation's is-disposed guard for this tick before it was stalled (guard lines located by AST; "
+        "the in-flight window in which best-effort cancellation cannot act) (CatchScheduler: "
         "handler called once, True swallows); distinct = digest of the case / (program, decision list); non-trivial = >= 2 invocations expected")
 ASSUMPTIONS = ["virtual-time part: the library's virtual-time schedulers are the clock (their ordering is checked by C28)",
                "controlled-clock part: instrumented threading primitives and virtual clock (vf/dsched.py); best-effort cancellation is asserted "
@@ -22,7 +26,8 @@ ASSUMPTIONS = ["virtual-time part: the library's virtual-time schedulers are the
 REQUIRED = {"virtual_cases": {"quick": 900, "thorough": 30000}, "invocations_checked": {"quick": 2500, "thorough": 60000},
             "dispose_on_tick_ties": {"quick": 30, "thorough": 900}, "raising_cases": {"quick": 150, "thorough": 4000},
             "observable_ticks_checked": {"quick": 800, "thorough": 20000}, "decided_runs": {"quick": 400, "thorough": 4000},
-            "set:thread_kinds": 5, "set:virtual_kinds": 3}
+            "set:thread_kinds": 5, "set:virtual_kinds": 3, "virtual_stalls": {"quick": 100, "thorough": 1000},
+            "runs_with_guard_evaluated_after_a_stall_spanning_dispose": {"quick": 50, "thorough": 500}}
 UNIT_TIMEOUT = {"quick": 240, "thorough": 3000}
 FILES = ("scheduler/periodicscheduler.py", "scheduler/newthreadscheduler.py", "scheduler/catchscheduler.py", "scheduler/eventloopscheduler.py",
          "scheduler/timeoutscheduler.py")
@@ -190,6 +195,33 @@ HAND = [
 ]
 
 
+STALL_FILES = ("periodicscheduler.py", "newthreadscheduler.py", "catchscheduler.py", "eventloopscheduler.py", "timeoutscheduler.py")
+_GUARDS: list = []
+
+
+def guard_lines() -> frozenset:
+    """(basename, line) of every `if <...is_disposed / is_set()...>` inside a schedule_periodic of the periodic schedulers:
+    the points at which an implementation looks at the cancellation before it invokes the action"""
+    if not _GUARDS:
+        import ast
+        import os
+        found = set()
+        for path in D_repo_files("scheduler/periodicscheduler.py", "scheduler/newthreadscheduler.py"):
+            tree = ast.parse(open(path).read())
+            for fn in ast.walk(tree):
+                if isinstance(fn, ast.FunctionDef) and fn.name == "schedule_periodic":
+                    for n in ast.walk(fn):
+                        if isinstance(n, (ast.If, ast.While)) and any(k in ast.unparse(n.test) for k in ("is_disposed", "is_set")):
+                            found.add((os.path.basename(path), n.lineno))
+        _GUARDS.append(frozenset(found))
+    return _GUARDS[0]
+
+
+def D_repo_files(*names: str) -> tuple:
+    from .. import dsched as D
+    return D.repo_file(*names)
+
+
 def scenario(c: Any, P: dict) -> dict:
     import datetime
     from reactivex.scheduler import (CatchScheduler, EventLoopScheduler, NewThreadScheduler, ThreadPoolScheduler,
@@ -213,9 +245,10 @@ def scenario(c: Any, P: dict) -> dict:
     calls: list = []     # (seq, clock, state)
     viol: list = []
     t0 = c.clock
+    c.watch_lines = guard_lines()
 
     def action(state: Any) -> Any:
-        calls.append((len(c.events), c.clock, state))
+        calls.append((len(c.events), c.clock, state, c.me().name))
         c.log("tick", len(calls), state)
         c.yp("in-action")
         if P["work"]:
@@ -246,27 +279,60 @@ def scenario(c: Any, P: dict) -> dict:
     d.dispose()
     end_seq = len(c.events)
     c.sleep(3 * period)       # no wait for quiescence: a periodic that fails to stop would never become quiescent
-    late = [x for x in calls if x[0] > end_seq and x[1] > t0 + P["horizon"] + period + 1e-6]
+    def segment(x: tuple) -> list:
+        """what the invoking thread did between its last blocking wait (or previous invocation) and this invocation"""
+        prev = max([y[0] for y in calls if y[3] == x[3] and y[0] < x[0]], default=-1)
+        mine = [w for w in c.watch_log if w[1] == x[3] and prev < w[0] <= x[0]]
+        waits = [i for i, w in enumerate(mine) if w[2] == "wait"]
+        return mine[waits[-1] + 1:] if waits else mine
+
+    def fair(x: tuple) -> bool:
+        """False when the invoking thread was stalled after it had evaluated the scheduler's is-disposed guard for this
+        tick and before it called the action: dispose() cannot stop an invocation that is already past the guard (DESIGN 4,
+        rule 4). An invocation whose guard was evaluated after the stall, or that evaluated no guard at all, is fair game."""
+        seg = [w[2] for w in segment(x)]
+        if "stall" not in seg or "visit" not in seg:
+            return True
+        last_stall = len(seg) - 1 - seg[::-1].index("stall")
+        last_visit = len(seg) - 1 - seg[::-1].index("visit")
+        return last_visit > last_stall
+    late = [x for x in calls if x[0] > end_seq and x[1] > t0 + P["horizon"] + period + 1e-6 and fair(x)]
     if late:
         viol.append(("C35:%s:invocation-more-than-one-period-after-final-dispose" % kind, {"clocks": [x[1] - t0 for x in late]}))
     state: Any = P["init"]
-    for k, (seq, clock, st) in enumerate(calls, start=1):
+    for k, (seq, clock, st, _th) in enumerate(calls, start=1):
         if st != state or type(st) is not type(state):
             viol.append(("C35:%s:state-not-threaded" % kind, {"k": k, "expected": repr(state), "got": repr(st)}))
             break
         state = (state, k)
         if clock < t0 + k * period - 1e-6:
             viol.append(("C35:%s:invocation-before-k-times-period" % kind, {"k": k, "clock": clock - t0}))
-        if P["work"] < period and clock > t0 + k * period + 1e-6:
+        # (a thread that was descheduled for a stretch of virtual time inside schedule_periodic shifts the whole grid:
+        #  the absolute-grid and minimum-count checks only apply to runs without injected stalls)
+        if not c.stalls and P["work"] < period and clock > t0 + k * period + 1e-6:
             # the schedulers correct for the time the action took: ticks stay on the grid while the action is shorter than the period
             viol.append(("C35:%s:invocation-off-the-period-grid" % kind, {"k": k, "clock": clock - t0, "expected": k * period, "work": P["work"]}))
     if P["raise_at"] is not None and len(calls) > P["raise_at"]:
         viol.append(("C35:%s:invocation-after-raise" % kind, {"invocations": len(calls), "raise_at": P["raise_at"]}))
     if disposed_at[0] is not None:
-        after = [x for x in calls if x[0] > disposed_at[0][0] and x[1] > disposed_at[0][1] + period + 1e-6]
+        after = [x for x in calls if x[0] > disposed_at[0][0] and x[1] > disposed_at[0][1] + period + 1e-6 and fair(x)]
         if after:
             viol.append(("C35:%s:invocation-more-than-one-period-after-dispose" % kind, {"dispose_clock": disposed_at[0][1] - t0, "clocks": [x[1] - t0 for x in after]}))
-        # an invocation strictly after dispose_ret within the period is tolerated (best effort) but counted
+        # rule 4: dispose() returned strictly before the tick's instant on the logical clock => that tick must not be
+        # invoked (an invocation at the very instant of dispose_ret is the tolerated race)
+        later = [x for x in calls if x[0] > disposed_at[0][0] and x[1] > disposed_at[0][1] + 1e-6 and fair(x)]
+        if later and not after:
+            viol.append(("C35:%s:invocation-after-dispose-returned-before-its-tick" % kind,
+                         {"dispose_clock": disposed_at[0][1] - t0, "clocks": [x[1] - t0 for x in later]}))
+    obs_guard = 0
+    if disposed_at[0] is not None:
+        # runs in which the strict rule was exercised: a thread was stalled and evaluated a guard afterwards, after dispose() returned
+        stalled = {}
+        for w in c.watch_log:
+            if w[2] == "stall":
+                stalled[w[1]] = True
+            elif w[2] == "visit" and stalled.get(w[1]) and w[0] >= disposed_at[0][0]:
+                obs_guard = 1
     # expected minimum number of invocations (bounded liveness): ticks strictly before any stop reason
     stop = P["horizon"]
     if P["dispose_after"] is not None:
@@ -281,7 +347,7 @@ def scenario(c: Any, P: dict) -> dict:
             break
         k += 1
         tcur += max(period, P["work"])
-    if len(calls) < n_min:
+    if len(calls) < n_min and not c.stalls:
         viol.append(("C35:%s:missing-invocations" % kind, {"invocations": len(calls), "at_least": n_min}))
     if kind == "catch" and P["raise_at"] is not None and len(calls) >= P["raise_at"]:
         if len(handled) != 1:
@@ -292,7 +358,7 @@ def scenario(c: Any, P: dict) -> dict:
             viol.append(("C35:catch:unhandled-exception-swallowed", {}))
     if inner is not None:
         inner.dispose()
-    return {"viol": viol, "obs": {"invocations_checked": len(calls), "raising_cases": 1 if P["raise_at"] is not None and len(calls) >= P["raise_at"] else 0},
+    return {"viol": viol, "obs": {"invocations_checked": len(calls), "runs_with_guard_evaluated_after_a_stall_spanning_dispose": obs_guard, "raising_cases": 1 if P["raise_at"] is not None and len(calls) >= P["raise_at"] else 0},
             "sig": {"ticks": [round(x[1] - t0, 6) for x in calls]}, "decided": True}
 
 
@@ -309,6 +375,9 @@ def units(tier: str, seed: int) -> list[dict]:
     for kind in TKINDS:
         for lo in range(0, nprog, 3 if q else 6):
             us.append({"mode": "random", "kind": kind, "progs": [lo, lo + (3 if q else 6)], "runs": 30 if q else 250, "seed": seed})
+        # stalls around a dispose that falls between two ticks: exercises the guard every implementation evaluates before a tick
+        for j in range(1 if q else 6):
+            us.append({"mode": "stallx", "kind": kind, "j": j, "runs": 200 if q else 1500, "seed": seed})
     return us
 
 
@@ -326,12 +395,24 @@ def run_unit(unit: dict, res: UnitResult) -> None:
         res.note("thread_kinds", P["kind"])
         dcheck.explore(res, ID, "hand%d-%s" % (unit["hand"], P["kind"]), scenario, P, "dfs", bound=unit["bound"], max_runs=unit["max_runs"])
         return
+    if unit["mode"] == "stallx":
+        r = case_rng(unit["seed"], ID, "stallx", unit["kind"], unit["j"])
+        period = r.choice([0.1, 0.25, 1.0])
+        k = r.randint(1, 3)
+        P = {"kind": unit["kind"], "period": period, "period_as": r.choice(["float", "timedelta"]), "init": None, "work": 0.0, "raise_at": None,
+             "dispose_after": period * (k + r.choice([0.2, 0.45, 0.7])), "handler": True, "horizon": period * (k + 2)}
+        res.note("thread_kinds", P["kind"])
+        dcheck.explore(res, ID, "stallx%d-%s" % (unit["j"], P["kind"]), scenario, P, "stall", seed=unit["seed"], runs=unit["runs"], stall_files=STALL_FILES,
+                       stall_durations=(period * 0.3, period * 0.6, period * 1.5))
+        return
     for pi in range(*unit["progs"]):
         P = gen_program(case_rng(unit["seed"], ID, unit["kind"], pi), unit["kind"])
         res.note("thread_kinds", P["kind"])
         name = "gen%d-%s" % (pi, P["kind"])
         dcheck.explore(res, ID, name, scenario, P, "random", seed=unit["seed"], runs=unit["runs"])
         dcheck.explore(res, ID, name, scenario, P, "pct", seed=unit["seed"], runs=unit["runs"] // 2)
+        dcheck.explore(res, ID, name, scenario, P, "stall", seed=unit["seed"], runs=unit["runs"], stall_files=STALL_FILES,
+                       stall_durations=(P["period"] * 0.6, P["period"] * 1.5))
 
 
 def replay(rep: dict, res: UnitResult) -> None:
